@@ -101,7 +101,8 @@ class Rate1Data(BitsInterface):
         return CRC9.calculate_from_parts(
             data=self.data,
             serial_number=self.dbsn,
-            crc32=self.crc32,
+            # only the last block carries the 32-bit CRC
+            crc32=self.crc32 if self.is_last_block() else None,
             mask=CrcMasks.Rate1DataContinuation,
         )
 
